@@ -44,125 +44,211 @@ Qed.
 
 Definition is_prefix (p c : list smom) : Prop := exists rest, c = p ++ rest.
 
+Lemma is_prefix_refl c : is_prefix c c.
+Proof. exists []. rewrite app_nil_r. reflexivity. Qed.
+Lemma is_prefix_trans a b c : is_prefix a b -> is_prefix b c -> is_prefix a c.
+Proof. intros (x & ->) (y & ->). exists (x ++ y). rewrite app_assoc. reflexivity. Qed.
+Lemma is_prefix_app c x : is_prefix c (c ++ x).
+Proof. exists x. reflexivity. Qed.
+
+Lemma blk_eqb_eq a b : blk_eqb a b = true -> a = b.
+Proof.
+  destruct a, b. unfold blk_eqb. cbn. intros H. apply andb_true_iff in H. destruct H as [H H3].
+  apply andb_true_iff in H. destruct H as [H1 H2]. apply Z.eqb_eq in H1, H2, H3. subst. reflexivity.
+Qed.
+Lemma pooled_in b p : pooled b p = true -> In b p.
+Proof.
+  unfold pooled. intros H. apply existsb_exists in H. destruct H as (x & I & E). apply blk_eqb_eq in E. subst. exact I.
+Qed.
+
 (* ------------------------------------------------------------------ what the apply loop can build *)
 Section Proofs.
-  Variable valid : list smom -> smom -> bool.
+  Variable bvalid : list smom -> list blk -> blk -> bool.
+  Variable mvalid : list smom -> dmom -> bool.
+
+  (* the account block passed full verification on the chain the node holds or on an earlier state of it that the
+     chain still extends (no own momentum of that state was abandoned since) *)
+  Definition verified_on (c : list smom) (b : blk) : Prop :=
+    exists c0 p0, is_prefix c0 c /\ bvalid c0 p0 b = true.
+  (* the invariant of the unconfirmed pool *)
+  Definition pool_verified (c : list smom) (p : list blk) : Prop := Forall (verified_on c) p.
+
+  Lemma verified_on_mono c c2 b : is_prefix c c2 -> verified_on c b -> verified_on c2 b.
+  Proof. intros P (c0 & p0 & P0 & V). exists c0, p0. split; [eapply is_prefix_trans; eauto|exact V]. Qed.
+  Lemma pool_verified_mono c c2 p : is_prefix c c2 -> pool_verified c p -> pool_verified c2 p.
+  Proof. intros P. apply Forall_impl. intros b. apply verified_on_mono, P. Qed.
+  Lemma pool_verified_confirm c bs p : pool_verified c p -> pool_verified c (confirm bs p).
+  Proof.
+    unfold pool_verified, confirm. rewrite !Forall_forall. intros H x I. apply filter_In in I. apply H, I.
+  Qed.
+
+  Lemma pool_verified_force_add c b p : pool_verified c p -> verified_on c b -> pool_verified c (force_add b p).
+  Proof.
+    unfold pool_verified, force_add. intros H V. apply Forall_app. split; [|constructor; [exact V|constructor]].
+    rewrite !Forall_forall in *. intros x I. apply filter_In in I. apply H, I.
+  Qed.
 
   (* c' is c extended by momentums each of which, at the moment it was appended, had a known previous momentum,
-     passed full verification, and extended the frontier *)
+     had every account block verified (just now, or earlier on a state the chain still extends), passed full
+     verification itself, and extended the frontier *)
   Inductive grown : list smom -> list smom -> Prop :=
   | g_refl c : grown c c
-  | g_step c d c' : known_prev c d = true -> valid c d = true -> extends c d = true ->
-                    grown (c ++ [d]) c' -> grown c c'.
+  | g_step c d c' : known_prev c (d_mom d) = true -> Forall (verified_on c) (d_blocks d) -> mvalid c d = true ->
+                    extends c (d_mom d) = true -> grown (c ++ [d_mom d]) c' -> grown c c'.
 
   Lemma grown_prefix c c' : grown c c' -> is_prefix c c'.
   Proof.
-    induction 1 as [c|c d c' _ _ _ _ IH]; [exists []; rewrite app_nil_r; reflexivity|].
-    destruct IH as (rest & E). exists (d :: rest). rewrite E, <- app_assoc. reflexivity.
+    induction 1 as [c|c d c' _ _ _ _ _ IH]; [apply is_prefix_refl|].
+    destruct IH as (rest & E). exists (d_mom d :: rest). rewrite E, <- app_assoc. reflexivity.
   Qed.
 
-  Lemma apply_all_grown ds : forall c i r c', apply_all valid c ds i = (r, c') -> grown c c'.
+  Lemma apply_blocks_inv c bs : forall p ok p1,
+    pool_verified c p -> apply_blocks bvalid c p bs = (ok, p1) ->
+    pool_verified c p1 /\ (ok = true -> Forall (verified_on c) bs).
   Proof.
-    induction ds as [|d ds IH]; cbn; intros c i r c' H.
-    - inversion H; subst. constructor.
-    - destruct (known_prev c d && valid c d) eqn:E.
-      + apply andb_true_iff in E. destruct E as [K V].
-        destruct (extends c d) eqn:X.
-        * eapply g_step; eauto.
+    induction bs as [|b r IH]; cbn; intros p ok p1 PV H.
+    - inversion H; subst. split; [exact PV|constructor].
+    - destruct (pooled b p) eqn:Pb.
+      + destruct (IH _ _ _ PV H) as [A B]. split; [exact A|]. intros O. constructor; [|apply B, O].
+        unfold pool_verified in PV. rewrite Forall_forall in PV. apply PV, pooled_in, Pb.
+      + destruct (bvalid c p b) eqn:Vb.
+        * assert (Vo : verified_on c b) by (exists c, p; split; [apply is_prefix_refl|exact Vb]).
+          assert (PV' : pool_verified c (force_add b p)).
+          { apply pool_verified_force_add; assumption. }
+          destruct (IH _ _ _ PV' H) as [A B]. split; [exact A|]. intros O. constructor; [exact Vo|apply B, O].
+        * inversion H; subst. split; [exact PV|discriminate].
+  Qed.
+
+  (* a failing block loop stopped at a block without a patch in the pool that did not verify *)
+  Lemma apply_blocks_false c bs : forall p p1, apply_blocks bvalid c p bs = (false, p1) ->
+    exists b, In b bs /\ pooled b p1 = false /\ bvalid c p1 b = false.
+  Proof.
+    induction bs as [|b r IH]; cbn; intros p p1 H; [discriminate|].
+    destruct (pooled b p) eqn:Pb.
+    - destruct (IH _ _ H) as (x & I & A). exists x. auto.
+    - destruct (bvalid c p b) eqn:Vb.
+      + destruct (IH _ _ H) as (x & I & A). exists x. auto.
+      + inversion H; subst. exists b. auto.
+  Qed.
+
+  Lemma apply_all_grown ds : forall c p i r c' p',
+    pool_verified c p -> apply_all bvalid mvalid c p ds i = (r, (c', p')) -> grown c c' /\ pool_verified c' p'.
+  Proof.
+    induction ds as [|d ds IH]; cbn; intros c p i r c' p' PV H.
+    - inversion H; subst. split; [constructor|exact PV].
+    - destruct (apply_blocks bvalid c p (d_blocks d)) as [okb p1] eqn:AB.
+      destruct (apply_blocks_inv _ _ _ _ _ PV AB) as [PV1 FB].
+      destruct (okb && (known_prev c (d_mom d) && mvalid c d)) eqn:E.
+      + apply andb_true_iff in E. destruct E as [O E]. apply andb_true_iff in E. destruct E as [K V].
+        destruct (extends c (d_mom d)) eqn:X.
+        * assert (PV2 : pool_verified (c ++ [d_mom d]) (confirm (d_blocks d) p1)).
+          { apply pool_verified_confirm. eapply pool_verified_mono; [apply is_prefix_app|exact PV1]. }
+          destruct (IH _ _ _ _ _ _ PV2 H) as [G P]. split; [|exact P]. eapply g_step; eauto.
         * eapply IH; eauto.
-      + inversion H; subst. constructor.
+      + inversion H; subst. split; [constructor|exact PV1].
   Qed.
 
-  Lemma apply_all_result ds : forall c i r c', apply_all valid c ds i = (r, c') ->
+  (* the element at which the loop stopped: one of its not yet pooled account blocks, or the momentum itself, does
+     not verify on the chain and with the pool the node holds afterwards *)
+  Definition elem_fails (c : list smom) (p : list blk) (d : dmom) : Prop :=
+    (exists b, In b (d_blocks d) /\ pooled b p = false /\ bvalid c p b = false) \/
+    known_prev c (d_mom d) && mvalid c d = false.
+
+  Lemma apply_all_result ds : forall c p i r c' p', apply_all bvalid mvalid c p ds i = (r, (c', p')) ->
     r = ICOk \/
-    exists pre d post, ds = pre ++ d :: post /\ r = ICErr (i + Z.of_nat (length pre)) EInvalid /\
-                       known_prev c' d && valid c' d = false.
+    exists pre d post, ds = pre ++ d :: post /\ r = ICErr (i + Z.of_nat (length pre)) EInvalid /\ elem_fails c' p' d.
   Proof.
-    induction ds as [|d ds IH]; cbn; intros c i r c' H.
+    induction ds as [|d ds IH]; cbn; intros c p i r c' p' H.
     - inversion H. auto.
-    - destruct (known_prev c d && valid c d) eqn:E.
-      + destruct (IH _ _ _ _ H) as [->|(pre & x & post & -> & -> & F)]; [auto|].
-        right. exists (d :: pre), x, post. repeat split; auto. cbn [length]. f_equal. lia.
-      + inversion H; subst. right. exists [], d, ds. repeat split; auto. cbn. f_equal. lia.
+    - destruct (apply_blocks bvalid c p (d_blocks d)) as [okb p1] eqn:AB.
+      destruct (okb && (known_prev c (d_mom d) && mvalid c d)) eqn:E.
+      + assert (R : forall c0 p0, apply_all bvalid mvalid c0 p0 ds (i + 1) = (r, (c', p')) ->
+                    r = ICOk \/ exists pre x post, d :: ds = pre ++ x :: post /\
+                      r = ICErr (i + Z.of_nat (length pre)) EInvalid /\ elem_fails c' p' x).
+        { intros c0 p0 H0. destruct (IH _ _ _ _ _ _ H0) as [->|(pre & x & post & -> & -> & F)]; [auto|].
+          right. exists (d :: pre), x, post. repeat split; auto. cbn [length]. f_equal. lia. }
+        destruct (extends c (d_mom d)); eapply R; eauto.
+      + inversion H; subst. right. exists [], d, ds. split; [reflexivity|]. split; [cbn; f_equal; lia|].
+        destruct okb.
+        * right. exact E.
+        * left. eapply apply_blocks_false. exact AB.
   Qed.
 
   Lemma skip_known_split c ds : forall s s' rest, skip_known c ds s = (s', rest) ->
     exists pre, ds = pre ++ rest /\ s' = s + Z.of_nat (length pre) /\
-      Forall (fun d => exists our, by_height c (s_height d) = Some our /\ s_hash our = s_hash d) pre.
+      Forall (fun d => exists our, by_height c (s_height (d_mom d)) = Some our /\ s_hash our = s_hash (d_mom d)) pre.
   Proof.
     induction ds as [|d ds IH]; cbn; intros s s' rest H.
     - inversion H; subst. exists []. repeat split; [cbn [length]; lia|constructor].
-    - destruct (by_height c (s_height d)) as [our|] eqn:B.
-      + destruct (s_hash our =? s_hash d) eqn:E.
+    - destruct (by_height c (s_height (d_mom d))) as [our|] eqn:B.
+      + destruct (s_hash our =? s_hash (d_mom d)) eqn:E.
         * destruct (IH _ _ _ H) as (pre & -> & -> & F). exists (d :: pre). repeat split; [cbn [length]; lia|].
           constructor; [|exact F]. exists our. apply Z.eqb_eq in E. auto.
         * inversion H; subst. exists []. repeat split; [cbn [length]; lia|constructor].
       + inversion H; subst. exists []. repeat split; [cbn [length]; lia|constructor].
   Qed.
 
+  (* every way out of insert_chain that is not the apply loop leaves chain and pool as they were *)
+  Ltac same_state H c p :=
+    inversion H; subst; exists c; split; [apply is_prefix_refl|split; [constructor|assumption]].
+
   (* ---------------------------------------------------------------- C16_only_verified *)
-  Theorem only_verified fixed c ds r c' :
-    insert_chain valid fixed c ds = (r, c') ->
-    exists kept, is_prefix kept c /\ grown kept c'.
+  Theorem only_verified fixed c p ds r c' p' :
+    pool_verified c p ->
+    insert_chain bvalid mvalid fixed true c p ds = (r, (c', p')) ->
+    exists kept, is_prefix kept c /\ grown kept c' /\ pool_verified c' p'.
   Proof.
-    unfold insert_chain. destruct ds as [|d0 ds0].
-    - intros H. inversion H; subst. exists c'. split; [exists []; rewrite app_nil_r; reflexivity|constructor].
+    intros PV. unfold insert_chain. destruct ds as [|d0 ds0].
+    - intros H. same_state H c' p'.
     - destruct (skip_known c (d0 :: ds0) 0) as [start rest] eqn:SK.
       destruct rest as [|head rest'].
-      + intros H. inversion H; subst. exists c'. split; [exists []; rewrite app_nil_r; reflexivity|constructor].
-      + destruct (frontier c) as [fr|];
-          [|intros H; inversion H; subst; exists c'; split; [exists []; rewrite app_nil_r; reflexivity|constructor]].
-        destruct (prev_is head fr).
-        * intros H. exists c. split; [exists []; rewrite app_nil_r; reflexivity|]. eapply apply_all_grown; eauto.
-        * destruct (by_height c (u64 (s_height head - 1))) as [target|];
-            [|intros H; inversion H; subst; exists c'; split; [exists []; rewrite app_nil_r; reflexivity|constructor]].
-          destruct (negb (prev_is head target));
-            [intros H; inversion H; subst; exists c'; split; [exists []; rewrite app_nil_r; reflexivity|constructor]|].
-          destruct (30 <? u64 (s_height fr - s_height target));
-            [intros H; inversion H; subst; exists c'; split; [exists []; rewrite app_nil_r; reflexivity|constructor]|].
-          destruct (s_height (last (head :: rest') head) <=? s_height fr);
-            [intros H; inversion H; subst; exists c'; split; [exists []; rewrite app_nil_r; reflexivity|constructor]|].
+      + intros H. same_state H c' p'.
+      + destruct (frontier c) as [fr|]; [|intros H; same_state H c' p'].
+        destruct (prev_is (d_mom head) fr).
+        * intros H. exists c. split; [apply is_prefix_refl|]. eapply apply_all_grown; eauto.
+        * destruct (by_height c (u64 (s_height (d_mom head) - 1))) as [target|]; [|intros H; same_state H c' p'].
+          destruct (negb (prev_is (d_mom head) target)); [intros H; same_state H c' p'|].
+          destruct (30 <? u64 (s_height fr - s_height target)); [intros H; same_state H c' p'|].
+          destruct (s_height (d_mom (last (head :: rest') head)) <=? s_height fr); [intros H; same_state H c' p'|].
           intros H. exists (rollback_to c (s_height target)). split; [apply rollback_prefix|].
-          eapply apply_all_grown; eauto.
+          eapply apply_all_grown; [|exact H]. constructor.
   Qed.
 
   (* ---------------------------------------------------------------- C16_failure_index *)
-  Theorem failure_index fixed c ds i c' :
-    insert_chain valid fixed c ds = (ICErr i EInvalid, c') ->
-    exists pre d post, ds = pre ++ d :: post /\ i = Z.of_nat (length pre) /\
-                       known_prev c' d && valid c' d = false.
+  Theorem failure_index fixed clears c p ds i c' p' :
+    insert_chain bvalid mvalid fixed clears c p ds = (ICErr i EInvalid, (c', p')) ->
+    exists pre d post, ds = pre ++ d :: post /\ i = Z.of_nat (length pre) /\ elem_fails c' p' d.
   Proof.
     unfold insert_chain. destruct ds as [|d0 ds0]; [destruct fixed; discriminate|].
     destruct (skip_known c (d0 :: ds0) 0) as [start rest] eqn:SK.
     destruct (skip_known_split _ _ _ _ _ SK) as (known & E & S & _).
-    assert (A : forall c0, apply_all valid c0 rest start = (ICErr i EInvalid, c') ->
-                exists pre d post, d0 :: ds0 = pre ++ d :: post /\ i = Z.of_nat (length pre) /\
-                                   known_prev c' d && valid c' d = false).
-    { intros c0 H. destruct (apply_all_result _ _ _ _ _ H) as [C|(pre & d & post & -> & R & F)]; [discriminate|].
+    assert (A : forall c0 p0, apply_all bvalid mvalid c0 p0 rest start = (ICErr i EInvalid, (c', p')) ->
+                exists pre d post, d0 :: ds0 = pre ++ d :: post /\ i = Z.of_nat (length pre) /\ elem_fails c' p' d).
+    { intros c0 p0 H. destruct (apply_all_result _ _ _ _ _ _ _ H) as [C|(pre & d & post & -> & R & F)]; [discriminate|].
       inversion R. exists (known ++ pre), d, post. rewrite E, <- app_assoc. repeat split; auto.
       rewrite app_length. lia. }
     destruct rest as [|head rest']; [discriminate|].
     destruct (frontier c) as [fr|]; [|discriminate].
-    destruct (prev_is head fr); [apply A|].
-    destruct (by_height c (u64 (s_height head - 1))) as [target|]; [|destruct fixed; discriminate].
-    destruct (negb (prev_is head target)); [discriminate|].
+    destruct (prev_is (d_mom head) fr); [apply A|].
+    destruct (by_height c (u64 (s_height (d_mom head) - 1))) as [target|]; [|destruct fixed; discriminate].
+    destruct (negb (prev_is (d_mom head) target)); [discriminate|].
     destruct (30 <? u64 (s_height fr - s_height target)); [discriminate|].
-    destruct (s_height (last (head :: rest') head) <=? s_height fr); [discriminate|].
+    destruct (s_height (d_mom (last (head :: rest') head)) <=? s_height fr); [discriminate|].
     apply A.
   Qed.
 
   (* ---------------------------------------------------------------- C16_idempotent *)
   Lemma skip_known_all c ds : forall s,
-    Forall (fun d => exists our, by_height c (s_height d) = Some our /\ s_hash our = s_hash d) ds ->
+    Forall (fun d => exists our, by_height c (s_height (d_mom d)) = Some our /\ s_hash our = s_hash (d_mom d)) ds ->
     snd (skip_known c ds s) = [].
   Proof.
     induction ds as [|d ds IH]; cbn; intros s F; [reflexivity|].
     inversion F as [|? ? (our & B & E) F']; subst. rewrite B, E, Z.eqb_refl. apply IH, F'.
   Qed.
 
-  Theorem idempotent fixed c ds : ds <> [] ->
-    Forall (fun d => exists our, by_height c (s_height d) = Some our /\ s_hash our = s_hash d) ds ->
-    insert_chain valid fixed c ds = (ICOk, c).
+  Theorem idempotent fixed clears c p ds : ds <> [] ->
+    Forall (fun d => exists our, by_height c (s_height (d_mom d)) = Some our /\ s_hash our = s_hash (d_mom d)) ds ->
+    insert_chain bvalid mvalid fixed clears c p ds = (ICOk, (c, p)).
   Proof.
     intros NE F. unfold insert_chain. destruct ds as [|d0 ds0]; [congruence|].
     pose proof (skip_known_all c (d0 :: ds0) 0 F) as S.
@@ -170,48 +256,133 @@ Section Proofs.
   Qed.
 
   (* ---------------------------------------------------------------- C16_leave_implies *)
-  Theorem leave_implies fixed c ds r c' :
-    insert_chain valid fixed c ds = (r, c') -> ~ is_prefix c c' ->
+  Lemma apply_all_prefix ds c p i r c' p' : apply_all bvalid mvalid c p ds i = (r, (c', p')) -> is_prefix c c'.
+  Proof.
+    revert c p i. induction ds as [|d ds IH]; cbn; intros c p i H.
+    - inversion H; subst. apply is_prefix_refl.
+    - destruct (apply_blocks bvalid c p (d_blocks d)) as [okb p1].
+      destruct (okb && (known_prev c (d_mom d) && mvalid c d)).
+      + destruct (extends c (d_mom d)).
+        * eapply is_prefix_trans; [apply is_prefix_app|]. eapply IH, H.
+        * eapply IH, H.
+      + inversion H; subst. apply is_prefix_refl.
+  Qed.
+
+  Theorem leave_implies fixed clears c p ds r c' p' :
+    insert_chain bvalid mvalid fixed clears c p ds = (r, (c', p')) -> ~ is_prefix c c' ->
     exists start head rest' fr target,
       skip_known c ds 0 = (start, head :: rest') /\ frontier c = Some fr /\
-      by_height c (u64 (s_height head - 1)) = Some target /\ prev_is head target = true /\
+      by_height c (u64 (s_height (d_mom head) - 1)) = Some target /\ prev_is (d_mom head) target = true /\
       u64 (s_height fr - s_height target) <= 30 /\
-      s_height fr < s_height (last (head :: rest') head).
+      s_height fr < s_height (d_mom (last (head :: rest') head)).
   Proof.
     unfold insert_chain. intros H NP.
-    assert (Same : c' = c -> False) by (intros ->; apply NP; exists []; rewrite app_nil_r; reflexivity).
+    assert (Same : c' = c -> False) by (intros ->; apply NP, is_prefix_refl).
     destruct ds as [|d0 ds0]; [inversion H; subst; exfalso; auto|].
     destruct (skip_known c (d0 :: ds0) 0) as [start rest] eqn:SK.
     destruct rest as [|head rest']; [inversion H; subst; exfalso; auto|].
     destruct (frontier c) as [fr|] eqn:FR; [|inversion H; subst; exfalso; auto].
-    destruct (prev_is head fr).
-    - exfalso. apply NP. eapply grown_prefix, apply_all_grown; eauto.
-    - destruct (by_height c (u64 (s_height head - 1))) as [target|] eqn:T; [|inversion H; subst; exfalso; auto].
-      destruct (negb (prev_is head target)) eqn:L; [inversion H; subst; exfalso; auto|].
+    destruct (prev_is (d_mom head) fr).
+    - exfalso. apply NP. eapply apply_all_prefix; eauto.
+    - destruct (by_height c (u64 (s_height (d_mom head) - 1))) as [target|] eqn:T; [|inversion H; subst; exfalso; auto].
+      destruct (negb (prev_is (d_mom head) target)) eqn:L; [inversion H; subst; exfalso; auto|].
       destruct (30 <? u64 (s_height fr - s_height target)) eqn:D; [inversion H; subst; exfalso; auto|].
-      destruct (s_height (last (head :: rest') head) <=? s_height fr) eqn:G; [inversion H; subst; exfalso; auto|].
+      destruct (s_height (d_mom (last (head :: rest') head)) <=? s_height fr) eqn:G; [inversion H; subst; exfalso; auto|].
       exists start, head, rest', fr, target. apply negb_false_iff in L. apply Z.ltb_ge in D. apply Z.leb_gt in G.
       repeat split; auto.
   Qed.
 
-  (* ---------------------------------------------------------------- C16_no_panic *)
-  Lemma apply_all_no_panic ds : forall c i, fst (apply_all valid c ds i) <> ICPanic.
+  (* the pool a rollback leaves behind: nothing (DeleteMomentum), whatever was pooled *)
+  Theorem rollback_empties_pool fixed c p ds r c' p' :
+    insert_chain bvalid mvalid fixed true c p ds = (r, (c', p')) -> ~ is_prefix c c' ->
+    exists target start rest,
+      skip_known c ds 0 = (start, rest) /\ rest <> [] /\
+      apply_all bvalid mvalid (rollback_to c (s_height target)) [] rest start = (r, (c', p')).
   Proof.
-    induction ds as [|d ds IH]; cbn; intros c i; [discriminate|].
-    destruct (known_prev c d && valid c d); [apply IH|cbn; discriminate].
+    unfold insert_chain. intros H NP.
+    assert (Same : c' = c -> False) by (intros ->; apply NP, is_prefix_refl).
+    destruct ds as [|d0 ds0]; [inversion H; subst; exfalso; auto|].
+    destruct (skip_known c (d0 :: ds0) 0) as [start rest] eqn:SK.
+    destruct rest as [|head rest']; [inversion H; subst; exfalso; auto|].
+    destruct (frontier c) as [fr|] eqn:FR; [|inversion H; subst; exfalso; auto].
+    destruct (prev_is (d_mom head) fr).
+    - exfalso. apply NP. eapply apply_all_prefix; eauto.
+    - destruct (by_height c (u64 (s_height (d_mom head) - 1))) as [target|] eqn:T; [|inversion H; subst; exfalso; auto].
+      destruct (negb (prev_is (d_mom head) target)) eqn:L; [inversion H; subst; exfalso; auto|].
+      destruct (30 <? u64 (s_height fr - s_height target)) eqn:D; [inversion H; subst; exfalso; auto|].
+      destruct (s_height (d_mom (last (head :: rest') head)) <=? s_height fr) eqn:G; [inversion H; subst; exfalso; auto|].
+      exists target, start, (head :: rest'). split; [reflexivity|]. split; [discriminate|exact H].
   Qed.
-  Theorem no_panic c ds : fst (insert_chain valid true c ds) <> ICPanic.
+
+  (* ---------------------------------------------------------------- C16_no_panic *)
+  Lemma apply_all_no_panic ds : forall c p i, fst (apply_all bvalid mvalid c p ds i) <> ICPanic.
+  Proof.
+    induction ds as [|d ds IH]; cbn; intros c p i; [discriminate|].
+    destruct (apply_blocks bvalid c p (d_blocks d)) as [okb p1].
+    destruct (okb && (known_prev c (d_mom d) && mvalid c d)); [|cbn; discriminate].
+    destruct (extends c (d_mom d)); apply IH.
+  Qed.
+  Theorem no_panic clears c p ds : fst (insert_chain bvalid mvalid true clears c p ds) <> ICPanic.
   Proof.
     unfold insert_chain. destruct ds as [|d0 ds0]; [cbn; discriminate|].
     destruct (skip_known c (d0 :: ds0) 0) as [start rest].
     destruct rest as [|head rest']; [cbn; discriminate|].
     destruct (frontier c) as [fr|]; [|cbn; discriminate].
-    destruct (prev_is head fr); [apply apply_all_no_panic|].
-    destruct (by_height c (u64 (s_height head - 1))) as [target|]; [|cbn; discriminate].
-    destruct (negb (prev_is head target)); [cbn; discriminate|].
+    destruct (prev_is (d_mom head) fr); [apply apply_all_no_panic|].
+    destruct (by_height c (u64 (s_height (d_mom head) - 1))) as [target|]; [|cbn; discriminate].
+    destruct (negb (prev_is (d_mom head) target)); [cbn; discriminate|].
     destruct (30 <? u64 (s_height fr - s_height target)); [cbn; discriminate|].
-    destruct (s_height (last (head :: rest') head) <=? s_height fr); [cbn; discriminate|].
+    destruct (s_height (d_mom (last (head :: rest') head)) <=? s_height fr); [cbn; discriminate|].
     apply apply_all_no_panic.
+  Qed.
+
+  (* ---------------------------------------------------------------- histories: deliveries and received blocks *)
+  (* what a node without pillars does between two restarts: InsertChain of a delivered batch, AddAccountBlocks of a
+     broadcast account block (verified on the frontier, then pooled) *)
+  Inductive op := Deliver (ds : list dmom) | Receive (b : blk).
+  Definition step (s : nstate) (o : op) : nstate :=
+    match o with
+    | Deliver ds => snd (insert_chain bvalid mvalid true true (fst s) (snd s) ds)
+    | Receive b => if pooled b (snd s) then s
+                   else if bvalid (fst s) (snd s) b then (fst s, force_add b (snd s)) else s
+    end.
+  Definition run (s : nstate) (ops : list op) : nstate := fold_left step ops s.
+
+  (* a momentum of the chain is either one the node started with or was adopted after full verification *)
+  Definition justified (c0 : list smom) (m : smom) : Prop :=
+    In m c0 \/ exists cur d, d_mom d = m /\ known_prev cur m = true /\ Forall (verified_on cur) (d_blocks d) /\
+                             mvalid cur d = true /\ extends cur m = true.
+
+  Lemma grown_justified c0 c c' : grown c c' -> Forall (justified c0) c -> Forall (justified c0) c'.
+  Proof.
+    induction 1 as [c|c d c' K B V X _ IH]; intros F; [exact F|]. apply IH. apply Forall_app. split; [exact F|].
+    constructor; [|constructor]. right. exists c, d. auto.
+  Qed.
+  Lemma prefix_forall {A} (P : A -> Prop) k c : (exists rest, c = k ++ rest) -> Forall P c -> Forall P k.
+  Proof. intros (rest & ->) F. apply Forall_app in F. apply F. Qed.
+
+  Definition inv (c0 : list smom) (s : nstate) : Prop :=
+    Forall (justified c0) (fst s) /\ pool_verified (fst s) (snd s).
+
+  Lemma step_inv c0 s o : inv c0 s -> inv c0 (step s o).
+  Proof.
+    destruct s as [c p]. intros [J PV]. cbn [fst snd] in *. destruct o as [ds|b]; cbn [step fst snd].
+    - destruct (insert_chain bvalid mvalid true true c p ds) as [r [c' p']] eqn:H.
+      destruct (only_verified _ _ _ _ _ _ _ PV H) as (kept & KP & G & PV'). cbn [snd fst]. split; [|exact PV'].
+      eapply grown_justified; [exact G|]. eapply prefix_forall; [exact KP|exact J].
+    - destruct (pooled b p); [split; assumption|].
+      destruct (bvalid c p b) eqn:V; [|split; assumption]. cbn [fst snd]. split; [exact J|].
+      apply pool_verified_force_add; [exact PV|]. exists c, p. split; [apply is_prefix_refl|exact V].
+  Qed.
+
+  Theorem history_only_verified c0 ops :
+    Forall (justified c0) (fst (run (c0, []) ops)) /\ pool_verified (fst (run (c0, []) ops)) (snd (run (c0, []) ops)).
+  Proof.
+    assert (G : forall ops s, inv c0 s -> inv c0 (run s ops)).
+    { induction ops0 as [|o r IH]; intros s I; [exact I|]. cbn [run fold_left]. apply IH, step_inv, I. }
+    apply (G ops (c0, [])). split; cbn [fst snd].
+    - apply Forall_forall. intros m I. left. exact I.
+    - constructor.
   Qed.
 End Proofs.
 
@@ -223,32 +394,66 @@ Proof.
   - cbn. repeat split; reflexivity.
   - repeat constructor; cbn; unfold two64; lia.
 Qed.
+Definition all_b (_ : list smom) (_ : list blk) (_ : blk) : bool := true.
+Definition all_m (_ : list smom) (_ : dmom) : bool := true.
 Theorem panic_before_fix :
-  (exists c ds, wf_chain c /\ ds <> [] /\ fst (insert_chain (fun _ _ => true) false c ds) = ICPanic) /\
-  (exists c, wf_chain c /\ fst (insert_chain (fun _ _ => true) false c []) = ICPanic).
+  (exists c ds, wf_chain c /\ ds <> [] /\ fst (insert_chain all_b all_m false true c [] ds) = ICPanic) /\
+  (exists c, wf_chain c /\ fst (insert_chain all_b all_m false true c [] []) = ICPanic).
 Proof.
   split.
-  - exists ex_local, [mkS 9 8 8]. split; [exact ex_local_wf|]. split; [discriminate|]. vm_compute. reflexivity.
+  - exists ex_local, [mkD (mkS 9 8 8) []]. split; [exact ex_local_wf|]. split; [discriminate|]. vm_compute. reflexivity.
   - exists ex_local. split; [exact ex_local_wf|]. reflexivity.
 Qed.
 
 (* ------------------------------------------------------------------ F11: rollback before verification *)
 (* a side chain forking below the frontier, longer than the own chain, whose second momentum is invalid *)
-Definition ex_side : list smom := [mkS 13 2 3; mkS 14 13 4; mkS 15 14 5; mkS 16 15 6].
-Definition ex_valid (_ : list smom) (d : smom) : bool := negb (s_hash d =? 14).
+Definition ex_side : list dmom :=
+  [mkD (mkS 13 2 3) []; mkD (mkS 14 13 4) []; mkD (mkS 15 14 5) []; mkD (mkS 16 15 6) []].
+Definition ex_valid (_ : list smom) (d : dmom) : bool := negb (s_hash (d_mom d) =? 14).
 
 Theorem leave_only_for_valid_refuted :
-  exists valid c ds r c',
-    wf_chain c /\ insert_chain valid true c ds = (r, c') /\
+  exists bvalid mvalid c ds r c' p',
+    wf_chain c /\ insert_chain bvalid mvalid true true c [] ds = (r, (c', p')) /\
     ~ is_prefix c c' /\                                  (* own momentums were abandoned ... *)
     (exists i, r = ICErr i EInvalid) /\                  (* ... for a delivered chain that failed verification ... *)
     (length c' < length c)%nat.                          (* ... and the node ends up with a shorter chain *)
 Proof.
-  exists ex_valid, ex_local, ex_side, (ICErr 1 EInvalid), [mkS 1 0 1; mkS 2 1 2; mkS 13 2 3].
+  exists all_b, ex_valid, ex_local, ex_side, (ICErr 1 EInvalid), [mkS 1 0 1; mkS 2 1 2; mkS 13 2 3], [].
   split; [exact ex_local_wf|]. split; [vm_compute; reflexivity|]. split.
   - intros (rest & E). apply (f_equal (@length smom)) in E. rewrite app_length in E. cbn in E. lia.
   - split; [exists 1; reflexivity|cbn; lia].
 Qed.
+
+(* ------------------------------------------------------------------ why DeleteMomentum has to drop the pool *)
+Definition b77 : blk := mkB 77 1 4.
+(* account block 77 acknowledges own momentum 5: it verifies exactly on chains that contain that momentum. The node
+   holds it unconfirmed; a longer side chain forking below momentum 5 carries it in its second momentum. *)
+Definition ex_ack5 (c : list smom) (_ : list blk) (_ : blk) : bool := existsb (fun m => s_hash m =? 5) c.
+Definition ex_side77 : list dmom :=
+  [mkD (mkS 13 2 3) []; mkD (mkS 14 13 4) [b77]; mkD (mkS 15 14 5) []; mkD (mkS 16 15 6) []].
+Definition ex_adopted : list smom := [mkS 1 0 1; mkS 2 1 2; mkS 13 2 3; mkS 14 13 4; mkS 15 14 5; mkS 16 15 6].
+
+Lemma ex_pool_verified : pool_verified ex_ack5 ex_local [b77].
+Proof. constructor; [|constructor]. exists ex_local, []. split; [apply is_prefix_refl|reflexivity]. Qed.
+
+(* with the pool kept across the rollback the side chain is adopted whole, block 77 unverified ... *)
+Theorem pool_kept_refuted :
+  exists bvalid mvalid c p ds c' p',
+    wf_chain c /\ pool_verified bvalid c p /\
+    insert_chain bvalid mvalid true false c p ds = (ICOk, (c', p')) /\
+    exists d b, In d ds /\ In (d_mom d) c' /\ In b (d_blocks d) /\ ~ verified_on bvalid c' b.
+Proof.
+  exists ex_ack5, all_m, ex_local, [b77], ex_side77, ex_adopted, [].
+  split; [exact ex_local_wf|]. split; [exact ex_pool_verified|]. split; [vm_compute; reflexivity|].
+  exists (mkD (mkS 14 13 4) [b77]), b77. split; [cbn; auto|]. split; [cbn; auto 10|]. split; [cbn; auto|].
+  intros (c0 & p0 & (rest & E) & V). unfold ex_ack5 in V.
+  assert (F : existsb (fun m => s_hash m =? 5) ex_adopted = false) by reflexivity.
+  rewrite E, existsb_app, V in F. discriminate.
+Qed.
+(* ... and with the pool dropped (the code) the same delivery stops in front of that momentum, index 1 *)
+Example pool_dropped_example :
+  insert_chain ex_ack5 all_m true true ex_local [b77] ex_side77 = (ICErr 1 EInvalid, ([mkS 1 0 1; mkS 2 1 2; mkS 13 2 3], [])).
+Proof. vm_compute. reflexivity. Qed.
 
 (* ---- partial: when the delivered chain is linked and passes verification in order, leaving is justified *)
 Lemma linked_tail m l : linked (m :: l) -> linked l.
@@ -276,12 +481,17 @@ Lemma frontier_last c d : c <> [] -> frontier c = Some (last c d).
 Proof.
   intros H. destruct (@exists_last _ c H) as (l & a & ->). rewrite frontier_app, last_last. reflexivity.
 Qed.
+Lemma last_map {A B} (f : A -> B) l : forall a, last (map f l) (f a) = f (last l a).
+Proof. induction l as [|x l IH]; intros a; [reflexivity|]. cbn [map]. rewrite !last_cons_default. apply IH. Qed.
 
 Section Partial.
-  Variable valid : list smom -> smom -> bool.
-  Inductive valid_in_order : list smom -> list smom -> Prop :=
-  | vio_nil c : valid_in_order c []
-  | vio_cons c d r : valid c d = true -> valid_in_order (c ++ [d]) r -> valid_in_order c (d :: r).
+  Variable bvalid : list smom -> list blk -> blk -> bool.
+  Variable mvalid : list smom -> dmom -> bool.
+  (* every account block (not pooled at that moment) and every momentum of the delivered chain verifies, in order *)
+  Inductive valid_in_order : list smom -> list blk -> list dmom -> Prop :=
+  | vio_nil c p : valid_in_order c p []
+  | vio_cons c p d r p1 : apply_blocks bvalid c p (d_blocks d) = (true, p1) -> mvalid c d = true ->
+                          valid_in_order (c ++ [d_mom d]) (confirm (d_blocks d) p1) r -> valid_in_order c p (d :: r).
 
   Definition in_range (m : smom) : Prop := 1 <= s_height m < two64.
 
@@ -292,58 +502,61 @@ Section Partial.
     apply Z.mod_small. lia.
   Qed.
 
-  Lemma apply_all_valid rest : forall kept prev i,
-    frontier kept = Some prev -> in_range prev -> linked (prev :: rest) -> Forall in_range rest ->
-    valid_in_order kept rest ->
-    apply_all valid kept rest i = (ICOk, kept ++ rest).
+  Lemma apply_all_valid rest : forall kept p prev i,
+    frontier kept = Some prev -> in_range prev -> linked (prev :: map d_mom rest) -> Forall in_range (map d_mom rest) ->
+    valid_in_order kept p rest ->
+    exists p', apply_all bvalid mvalid kept p rest i = (ICOk, (kept ++ map d_mom rest, p')).
   Proof.
-    induction rest as [|d r IH]; intros kept prev i F R L RR V; cbn.
-    - rewrite app_nil_r. reflexivity.
-    - inversion V as [|? ? ? Vd Vr]; subst. inversion RR as [|? ? Rd Rr]; subst.
+    induction rest as [|d r IH]; intros kept p prev i F R L RR V; cbn [apply_all map].
+    - rewrite app_nil_r. exists p. reflexivity.
+    - inversion V as [|? ? ? ? p1 AB Vd Vr]; subst. cbn [map] in RR, L. inversion RR as [|? ? Rd Rr]; subst.
       destruct L as [[Lp Lh] Lr].
-      pose proof (prev_is_of_link d prev Lp Lh R) as P.
-      assert (K : known_prev kept d = true).
+      pose proof (prev_is_of_link (d_mom d) prev Lp Lh R) as P.
+      assert (K : known_prev kept (d_mom d) = true).
       { unfold known_prev. apply existsb_exists. exists prev. split; [apply frontier_some_in, F|exact P]. }
-      assert (X : extends kept d = true) by (unfold extends; rewrite F; exact P).
-      rewrite K, Vd, X. cbn [andb].
-      rewrite (IH (kept ++ [d]) d (i + 1)); auto.
-      + rewrite <- app_assoc. reflexivity.
+      assert (X : extends kept (d_mom d) = true) by (unfold extends; rewrite F; exact P).
+      rewrite AB, K, Vd, X. cbn [andb].
+      destruct (IH (kept ++ [d_mom d]) (confirm (d_blocks d) p1) (d_mom d) (i + 1)) as (p' & E); auto.
       + apply frontier_app.
+      + exists p'. rewrite E, <- app_assoc. reflexivity.
   Qed.
 
-  Theorem leave_only_for_valid_partial c ds r c' :
+  Theorem leave_only_for_valid_partial c p ds r c' p' :
     wf_chain c ->
-    insert_chain valid true c ds = (r, c') -> ~ is_prefix c c' ->
+    insert_chain bvalid mvalid true true c p ds = (r, (c', p')) -> ~ is_prefix c c' ->
     forall start head rest', skip_known c ds 0 = (start, head :: rest') ->
-    linked (head :: rest') -> Forall in_range (head :: rest') ->
-    (forall target, by_height c (u64 (s_height head - 1)) = Some target ->
-                    valid_in_order (rollback_to c (s_height target)) (head :: rest')) ->
+    linked (map d_mom (head :: rest')) -> Forall in_range (map d_mom (head :: rest')) ->
+    (forall target, by_height c (u64 (s_height (d_mom head) - 1)) = Some target ->
+                    valid_in_order (rollback_to c (s_height target)) [] (head :: rest')) ->
     exists target,
-      by_height c (u64 (s_height head - 1)) = Some target /\
-      r = ICOk /\ c' = rollback_to c (s_height target) ++ head :: rest' /\ (length c < length c')%nat.
+      by_height c (u64 (s_height (d_mom head) - 1)) = Some target /\
+      r = ICOk /\ c' = rollback_to c (s_height target) ++ map d_mom (head :: rest') /\ (length c < length c')%nat.
   Proof.
     intros (NE & LK & RG) H NP start head rest' SK LD RD VD.
-    destruct (leave_implies valid true c ds r c' H NP) as (start' & head' & rest'' & fr & target & SK' & FR & T & P & D & G).
+    destruct (leave_implies bvalid mvalid true true c p ds r c' p' H NP)
+      as (start' & head' & rest'' & fr & target & SK' & FR & T & P & D & G).
     rewrite SK in SK'. inversion SK'; subst start' head' rest''. clear SK'.
     exists target. split; [exact T|].
     unfold insert_chain in H. destruct ds as [|d0 ds0]; [cbn in SK; discriminate|].
     rewrite SK, FR in H.
-    destruct (prev_is head fr) eqn:PF.
-    { exfalso. apply NP. eapply grown_prefix, apply_all_grown; eauto. }
+    destruct (prev_is (d_mom head) fr) eqn:PF.
+    { exfalso. apply NP. eapply apply_all_prefix; eauto. }
     rewrite T, P in H. cbn [negb] in H.
     destruct (30 <? u64 (s_height fr - s_height target)) eqn:E1; [apply Z.ltb_lt in E1; lia|].
-    destruct (s_height (last (head :: rest') head) <=? s_height fr) eqn:E2; [apply Z.leb_le in E2; lia|].
+    destruct (s_height (d_mom (last (head :: rest') head)) <=? s_height fr) eqn:E2; [apply Z.leb_le in E2; lia|].
     pose proof T as T0. destruct (by_height_in _ _ _ T) as [Tin Th].
     assert (Rt : in_range target) by (rewrite Forall_forall in RG; apply RG, Tin).
-    assert (Hh : s_height head = s_height target + 1).
+    cbn [map] in LD, RD.
+    assert (Hh : s_height (d_mom head) = s_height target + 1).
     { inversion RD as [|? ? Rh _]; subst. unfold prev_is in P. apply andb_true_iff in P. destruct P as [_ P].
       apply Z.eqb_eq in P. unfold in_range, u64, two64 in *. rewrite Z.mod_small in P; lia. }
-    assert (Lt : linked (target :: head :: rest')).
-    { cbn [linked]. split; [|exact LD]. split; [|exact Hh].
+    assert (Lt : linked (target :: map d_mom (head :: rest'))).
+    { cbn [linked map]. split; [|exact LD]. split; [|exact Hh].
       unfold prev_is in P. apply andb_true_iff in P. destruct P as [P _]. apply Z.eqb_eq in P. exact P. }
-    rewrite (apply_all_valid (head :: rest') (rollback_to c (s_height target)) target start) in H; auto.
-    2: { apply rollback_frontier. rewrite Th. exact T. }
-    inversion H; subst r c'. split; [reflexivity|]. split; [reflexivity|].
+    destruct (apply_all_valid (head :: rest') (rollback_to c (s_height target)) [] target start) as (pf & AV); auto.
+    { apply rollback_frontier. rewrite Th. exact T. }
+    rewrite AV in H.
+    inversion H; subst r c' p'. split; [reflexivity|]. split; [reflexivity|].
     (* lengths: the dropped part has fr.height - target.height momentums, the delivered part more *)
     destruct (rollback_prefix c (s_height target)) as (dropped & Ec).
     assert (T1 : by_height c (s_height target) = Some target) by (rewrite Th; exact T).
@@ -357,9 +570,9 @@ Section Partial.
     assert (Hfr : fr = last dropped target).
     { rewrite (frontier_last c target NE) in FR. inversion FR as [Efr].
       rewrite Ec at 1. rewrite Ek, <- app_assoc. cbn [app]. apply last_app_cons. }
-    pose proof (linked_height_last rest' head LD) as Hr.
-    rewrite Ec at 1. rewrite !app_length. cbn [length].
+    pose proof (linked_height_last (map d_mom rest') (d_mom head) LD) as Hr.
+    rewrite Ec at 1. rewrite !app_length. cbn [length map]. rewrite map_length in *.
     assert (s_height fr = s_height target + Z.of_nat (length dropped)) by (rewrite Hfr; exact Hd).
-    rewrite last_cons_default in G. lia.
+    rewrite last_cons_default in G. rewrite last_map in Hr. lia.
   Qed.
 End Partial.
